@@ -95,8 +95,10 @@ class V2(object):
         return o
 
     def field_value(self, n):
+        from .cvss3 import score_repr
+
         sname = {"base_score": "base", "temporal_score": "temporal", "environmental_score": "env"}[n]
-        return lift(frac_to_di(1), self.spec(sname))
+        return score_repr(self.ctx, self.spec(sname), n)
 
 
 def view_of(o):
